@@ -108,6 +108,40 @@ def check_sat(assertions, *, timeout_ms=None, want_model=False, try_abstract=Tru
         STATS["solver_s"] += time.time() - t0
 
 
+def _conjuncts(goal):
+    if z3.is_and(goal):
+        out = []
+        for c in goal.children():
+            out.extend(_conjuncts(c))
+        return out
+    return [goal]
+
+
+def _ring_identity(goal, hyps):
+    """True iff every conjunct of goal is an equation lhs == rhs that holds as a ring identity (normal forms of both
+    sides coincide) and every denominator occurring in it is provably non-zero under hyps (z3)."""
+    from . import poly
+    side = {}
+    for c in _conjuncts(goal):
+        if not (z3.is_eq(c) and z3.is_arith(c.arg(0))):
+            return False
+        ok, conds = poly.equal_by_normalisation(c.arg(0), c.arg(1))
+        if not ok:
+            return False
+        for d in conds:
+            side[d.get_id()] = d
+    for d in side.values():
+        hint = smt.NZ_HINT.get(d.get_id())
+        if hint is not None:  # d = |w^n|^2: non-zero iff w is (trusted algebraic fact), much cheaper to prove
+            st, _ = check_sat(list(hyps) + [z3.Not(hint[1])], timeout_ms=4000)
+            if st == "unsat":
+                continue
+        st, _ = check_sat(list(hyps) + [d == 0], timeout_ms=4000)
+        if st != "unsat":
+            return False
+    return True
+
+
 def model_to_dict(m, limit=60):
     out = {}
     if m is None:
@@ -208,7 +242,12 @@ class Engine:
         hy = self.pc + self.hyps + list(extra_hyps)
         opts = dict(self.axiom_opts)
         opts.update(axiom_opts or {})
-        st, m = check_sat(hy + [z3.Not(goal)], want_model=True, axiom_opts=opts)
+        st, m = None, None
+        if kind in ("ensures", "invariant", "lemma") and _ring_identity(goal, hy):
+            st = "unsat"
+            ob.backend = "ring-normaliser (symjnp.poly) + z3 %s for non-zero side conditions" % z3.get_version_string()
+        if st is None:
+            st, m = check_sat(hy + [z3.Not(goal)], want_model=True, axiom_opts=opts)
         ob.time_s = time.time() - t0
         if st == "unsat":
             ob.status = "discharged"
@@ -254,6 +293,7 @@ class Engine:
             prev = CURRENT
             CURRENT = self
             smt.DivisionObligation.hook = self._div_hook
+            smt.DivisionObligation.hook_cond = self._div_hook_cond
             try:
                 harness(self)
             except PathAbort:
@@ -261,6 +301,7 @@ class Engine:
             finally:
                 CURRENT = prev
                 smt.DivisionObligation.hook = prev._div_hook if prev is not None else None
+                smt.DivisionObligation.hook_cond = prev._div_hook_cond if prev is not None else None
         return self
 
     def _div_hook(self, den):
@@ -271,6 +312,18 @@ class Engine:
             return
         self._div_seen.add(key)
         self.prove("division: denominator != 0", smt.rne(den, 0), kind="division")
+
+    def _div_hook_cond(self, cond):
+        if self.div_guard_off or cond is True:
+            return
+        if cond is False:
+            self.prove("division: complex denominator != 0", False, kind="division")
+            return
+        key = (self.path_id, cond.get_id(), tuple(h.get_id() for h in self.hyps))
+        if key in self._div_seen:
+            return
+        self._div_seen.add(key)
+        self.prove("division: complex denominator != 0", cond, kind="division")
 
     def holds(self, cond, timeout_ms=5000):
         """silent validity check under the current path condition (used by the shim to simplify; no obligation)"""
